@@ -164,7 +164,7 @@ class Report(Partial):
         }
 
     def _write_replay(self, idx, v):
-        d = os.path.join(VERIF, "replays", self.pid)
+        d = os.path.join(os.environ.get("VERIF_REPLAY_DIR", os.path.join(VERIF, "replays")), self.pid)
         os.makedirs(d, exist_ok=True)
         safe = "".join(ch if ch.isalnum() or ch in "-_." else "_" for ch in v["key"])[:80]
         path = os.path.join(d, f"{idx:02d}_{safe}.py")
@@ -256,8 +256,9 @@ class Report(Partial):
             "wall_s": round(wall, 2),
             "violations": len(real),
         }
-        os.makedirs(os.path.join(VERIF, "evidence"), exist_ok=True)
-        with open(os.path.join(VERIF, "evidence", f"{self.pid}.json"), "w") as f:
+        evdir = os.environ.get("VERIF_EVIDENCE_DIR", os.path.join(VERIF, "evidence"))
+        os.makedirs(evdir, exist_ok=True)
+        with open(os.path.join(evdir, f"{self.pid}.json"), "w") as f:
             json.dump(ev, f, indent=1, default=str)
         print(
             f"[{self.pid}] tier={self.tier} cases={self.cases} distinct={distinct} "
